@@ -209,9 +209,11 @@ def gen_case(rng, scheme=None, n=None, idx=None, vec=None, with_ds=None, smax_ca
 
 def exact_ok(case) -> bool:
     """All function values at x and x ± h e_c (c differentiated) are exactly float64 (not needed for cs)."""
+    x = frl(case["x"])
+    if not all(is_f64(v) for v in x):
+        return False
     if case["scheme"] == "cs":
         return True
-    x = frl(case["x"])
     pts = [x]
     for c in eff_idx(case):
         h = step_of(case, c)
@@ -783,7 +785,7 @@ def run_disc(case) -> dict[str, Any]:
             ok = d.check_jacobian(
                 derr_approx=MODE[case["scheme"]],
                 step=disc_step(case),
-                threshold=float(Fraction(1, 2 ** case["threshold_pow"])) if case["threshold_pow"] else 1e-3,
+                threshold=float(Fraction(2) ** case["threshold_pow"]),
                 indices=indices,
             )
             out["chk_" + label] = bool(ok)
@@ -1067,9 +1069,39 @@ def check_disc_cases(res: Result, cases: list[dict[str, Any]]) -> None:
             res.traces_validated += 1
 
 
-def add_wrong(case, rng) -> dict[str, Any]:
+def _pow2_at_least(v: Fraction) -> int:
+    """Smallest integer p with 2**p >= v (v > 0)."""
+    p = -60
+    while Fraction(2) ** p < v:
+        p += 1
+    return p
+
+
+def disc_threshold(case) -> tuple[int, Fraction, Fraction]:
+    """(p, max allowed error, max |derivative|): threshold 2**p >= 4 x the analytic error bound of every entry."""
+    maxb, maxd = Fraction(0), Fraction(0)
+    for j in range(case["m"]):
+        for c in range(case["n"]):
+            D, allowed, _ = allowed_bound(case, j, c)
+            maxb = max(maxb, allowed)
+            maxd = max(maxd, abs(D))
+    return max(-20, _pow2_at_least(4 * maxb)), maxb, maxd
+
+
+def add_threshold(case) -> dict[str, Any]:
     c = dict(case)
-    c["wrong"] = {"row": rng.randrange(case["m"]), "col": rng.randrange(case["n"]), "delta": rat(Fraction(rng.pick([1, -1, 2]), 1))}
+    c["threshold_pow"] = disc_threshold(case)[0]
+    return c
+
+
+def add_wrong(case, rng) -> dict[str, Any]:
+    """A wrong analytic entry, far outside threshold*(1+|approx|) + approximation error."""
+    c = add_threshold(case)
+    p, maxb, maxd = disc_threshold(case)
+    t = Fraction(2) ** p
+    w = 2 * (t * (2 + maxd + maxb) + maxb)
+    delta = Fraction(2) ** _pow2_at_least(w) * rng.pick([1, -1])
+    c["wrong"] = {"row": rng.randrange(case["m"]), "col": rng.randrange(case["n"]), "delta": rat(delta)}
     return c
 
 
@@ -1124,8 +1156,7 @@ def run(ctx) -> Result:
     dcs = []
     for _ in range(ndisc):
         c = gen_disc_case(rng)
-        if rng.chance(0.5):
-            c = add_wrong(c, rng)
+        c = add_wrong(c, rng) if rng.chance(0.5) else add_threshold(c)
         dcs.append(c)
     check_disc_cases(res, dcs)
     # out-of-scope probes (information only)
